@@ -274,6 +274,8 @@ theorem put_facts {d : Dpb} {r r' : Raw} {f : FImg} {now : Bytes} (h : Inv d r) 
   split at hop
   · cases hop
   next hvalid =>
+  split at hop
+  · cases hop
   rw [getDirectory_eq h.shape h.dpb] at hop
   simp only [] at hop
   rw [show (f.end_ / (extentCapacity d / blockSize d) + (if f.end_ % (extentCapacity d / blockSize d) > 0 then 1 else 0)) =
